@@ -3,7 +3,7 @@
       DEC <hex>                   DecodeClaimsFromCBOR, then Validate and all getters
       RT  <13 claims tokens>      encode, decode the result, re-encode *)
 From Coq Require Import String.
-From PSA Require Import Base Lines Lifecycle Regex Claims Cbor Utf8 Tags Wire Codec Obs CaseClaims.
+From PSA Require Import Base Lines Lifecycle Regex Claims Cbor Utf8 Tags Wire Codec Evidence Gates Obs CaseClaims RunHist.
 Open Scope N_scope.
 
 Definition tok_enc (w : wcfg) (c : claims) : bytes :=
@@ -36,7 +36,7 @@ Definition run_enc (w : wcfg) (args : list bytes) : bytes :=
 Definition run_dec (cc : ccfg) (w : wcfg) (args : list bytes) : bytes :=
   match args with
   | [h] => match parse_hex h with
-           | Some b => join_sp (obs_decoded cc (decode_cbor cc w b))
+           | Some b => join_sp (obs_decoded cc (decode_cbor cc w b)) ++ s2b " ## lenient=" ++ bool_tok (lenient_cbor cc w b)
            | None => bad_input
            end
   | _ => bad_input
@@ -46,16 +46,85 @@ Definition run_rt (cc : ccfg) (w : wcfg) (args : list bytes) : bytes :=
   match parse_claims args with
   | Some (c, []) =>
       match encode_cbor w c with
-      | None => s2b "err"
+      | None => join_sp (obs_getters cc c ++ [s2b "err"])
       | Some b =>
           match c_kind c, c_swc c, c_profile c with
           | K2, Some [], _ => s2b "*"
           | _, _, Some (POid _) => s2b "*"
           | _, _, _ =>
               let r := decode_cbor cc w b in
-              join_sp (tok_enc w c :: obs_decoded cc r ++
+              join_sp (obs_getters cc c ++ tok_enc w c :: obs_decoded cc r ++
                        [match r with DOk c' => tok_enc w c' | _ => s2b "-" end])
           end
       end
   | _ => bad_input
+  end.
+
+(** GATE <13 claims tokens>: Validate, ValidateAndEncodeClaimsToCBOR vs EncodeClaimsToCBOR,
+    Evidence.SetClaims (result, attached?), ValidateAndSign with a good signer (result) *)
+Definition tok_optbytes (k : kind) (c : claims) (o : option bytes) : bytes :=
+  match o with
+  | None => s2b "err"
+  | Some b => match c_kind c, c_swc c, c_profile c with
+              | K2, Some [], _ => s2b "*"
+              | _, _, Some (POid _) => s2b "*"
+              | _, _, _ => s2b "ok:" ++ hex_of b
+              end
+  end.
+
+Definition run_gate (cc : ccfg) (w : wcfg) (args : list bytes) : bytes :=
+  match parse_claims args with
+  | Some (c, []) =>
+      let v := validate cc c in
+      let e0 := {| e_claims := None; e_msg := None |} in
+      let '(e1, o1) := step cc w (fun _ => (-7)%Z) (fun _ => true) e0 (ESetClaims c) in
+      let '(_, o2) := step cc w (fun _ => (-7)%Z) (fun _ => true) {| e_claims := Some c; e_msg := None |}
+                           (ESign true {| sg_key := 1; sg_alg := (-7)%Z; sg_beh := SignsOk |}) in
+      join_sp [ tok_res_unit v;
+                tok_optbytes (c_kind c) c (validate_and_encode cc w c);
+                tok_optbytes (c_kind c) c (encode_cbor w c);
+                match o1 with OutErr => s2b "err" | _ => s2b "ok" end;
+                match e_claims e1 with Some _ => s2b "1" | None => s2b "0" end;
+                match o2 with OutErr => s2b "err" | _ => s2b "ok" end ]
+  | _ => bad_input
+  end.
+
+(** DECV <hex>: DecodeAndValidateClaimsFromCBOR, DecodeClaimsFromCBOR, and
+    DecodeAndValidateEvidenceFromCOSE / DecodeEvidenceFromCOSE of an envelope around the bytes *)
+Definition run_decv (cc : ccfg) (w : wcfg) (args : list bytes) : bytes :=
+  match args with
+  | [h] => match parse_hex h with
+           | Some b =>
+               let d := decode_cbor cc w b in
+               let dv := decode_and_validate cc w b in
+               let t (r : dres claims) := match r with DOk _ => s2b "ok" | DErr => s2b "err" | DUnmodelled => s2b "*" end in
+               join_sp [t dv; t d; t dv; t d]
+           | None => bad_input
+           end
+  | _ => bad_input
+  end.
+
+(** ENCH new1|new1np|new2 <op>*: build a claims-set through setters, then encode *)
+Definition run_ench (cc : ccfg) (w : wcfg) (args : list bytes) : bytes :=
+  match args with
+  | init :: ops =>
+      let start :=
+        if bytes_eqb init (s2b "new1") then Some (new_p1 cc true)
+        else if bytes_eqb init (s2b "new1np") then Some (new_p1 cc false)
+        else if bytes_eqb init (s2b "new2") then Some (new_p2 cc)
+        else None in
+      match start with
+      | Some c0 =>
+          let fix go (c : claims) (ops : list bytes) : option claims :=
+            match ops with
+            | [] => Some c
+            | op :: r => match RunHist.apply_op cc c op with Some (c', _) => go c' r | None => None end
+            end in
+          match go c0 ops with
+          | Some c => join_sp [tok_res_unit (validate cc c); tok_enc w c]
+          | None => bad_input
+          end
+      | None => bad_input
+      end
+  | [] => bad_input
   end.
